@@ -296,6 +296,12 @@ class Walk:
             st["api"] = api
             st["msgid"] = 0
             st["ver"] = rnd.choice([0, 1, 2]) if api in ("send", "SendNoWait") else 0
+        if api in ("send", "SendNoWait") and n > 0:
+            # the form of the outgoing Message: fresh, or already inspected once / twice with UnmarshalTo (nothing for the model)
+            form = rnd.choice(["", "", "inspected1", "inspected2"])
+            if form:
+                st["form"] = form
+            self.stats["msg-form:" + (form or "fresh")] += 1
         self.callers[c] = dict(typ=typ, len=n, api=api)
         self.stats["op:send/" + api] += 1
         self.stats["reqtype:" + ("CloseConnection" if typ == 14 else "GetSupportedVersion" if typ == 46 else "SetProtocolVersion" if typ == 47
@@ -683,6 +689,10 @@ class Walk:
             if self.is_ka(st) and not self.no_ack:
                 # the ackHandler queues the id as soon as the HEADER is there (it does not look at the payload), the model's
                 # RFrame when the frame is complete: a keep-alive is cut inside its header only
+                k = min(k, 9)
+            if st.get("typ") == 4:
+                # whether a CloseConnectionResponse counts (sentClose) is decided when its HEADER has been read; the model
+                # decides when the frame is complete — a CloseConnection written in between would be seen differently
                 k = min(k, 9)
             fid0 = st.get("id") if st["op"] != "reply" else S["out"][st["to"]]["id"]
             if fid0 in S["awaiting"] and (st.get("pl") or {}).get("len", 0) > cc.MAX_BUFFERED:
